@@ -61,7 +61,7 @@ func genRecords(t *rapid.T, label string, max int) [][]byte {
 func TestC05(t *testing.T) {
 	rec := ev.Get("C05")
 	rec.Rule("syntactically valid ClientHellos without an acceptable ECH: no ECH / GREASE ECH (random or matching id and suite; enc usually 32 bytes, sometimes of a length or value the KEM refuses) / authentic ECH to a key the server lacks / ECH present but TLS 1.3 not offered / no extension block / empty block; sizes to 16 KiB; key sets none, unrelated, same-id; followed by 0..5 arbitrary records each way. Oracle: bytes read from Conn == bytes sent (record version of the hello excepted), bytes written reach the client unchanged, ServerName/ALPN == harness decoder == crypto/tls ClientHelloInfo. distinct = hello hash; non-trivial = unknown extension type, GREASE ECH or no TLS 1.3")
-	rec.Mandatory("odd_legacy_version", "kind:no_ech", "kind:grease", "kind:grease_matching_id", "kind:foreign_key", "kind:no_tls13_with_ech", "kind:no_ext_block", "kind:empty_ext_block", "size_ge12k", "tls10_only", "keys:none", "keys:unrelated", "keys:same_id", "tls_oracle_used", "enc_unusable_for_kem", "no_tls13_high_legacy_version")
+	rec.Mandatory("odd_legacy_version", "kind:no_ech", "kind:grease", "kind:grease_matching_id", "kind:foreign_key", "kind:no_tls13_with_ech", "kind:no_ext_block", "kind:empty_ext_block", "size_ge12k", "tls10_only", "keys:none", "keys:unrelated", "keys:same_id", "tls_oracle_used", "enc_unusable_for_kem", "no_tls13_high_legacy_version", "other_connection_accepted_before_first_read")
 	rapid.Check(t, func(t *rapid.T) {
 		pub := hello.GenName(t, "public_name", 253)
 		key := drawKey(t, "key", -1, pub)
@@ -168,7 +168,19 @@ func TestC05(t *testing.T) {
 		}
 		rp := map[string]any{"keys": keysReplay(keys), "client_stream": hx(stream), "expect": "passthrough_exact", "kind": kind, "want_server_name": h.SNI()}
 		tr := wire.New(stream, io.EOF)
+		withDebug = rapid.Bool().Draw(t, "with_debug")
+		defer func() { withDebug = false }()
 		c, err := newConn(context.Background(), tr, echKeys(keys...))
+		if err == nil && rapid.Bool().Draw(t, "other_connection_accepted_meanwhile") {
+			// before the backend has read anything, the server accepts another connection
+			// (other hello, same process): connections share nothing
+			oh := hello.GenPlain(t, "other_hello", hello.PlainOpts{})
+			guard(func() error {
+				newConn(context.Background(), wire.New(hello.Record(22, 0x0303, oh.Message()), io.EOF), echKeys(keys...))
+				return nil
+			})
+			cl = append(cl, "other_connection_accepted_before_first_read")
+		}
 		if err != nil {
 			if kf, ok := ev.Known("C05", "no-extension-block-rejected"); ok && kind == "no_ext_block" {
 				rec.KnownHit("no-extension-block-rejected", kf)
